@@ -16,6 +16,7 @@ import math
 import numpy as np
 
 import cyc8
+import numtypes
 
 ROT1 = ("Rx", "Ry", "Rz")
 ROT2 = ("CU1", "CRz", "CRx")
@@ -207,14 +208,14 @@ def show(g):
     if k == "C":
         return "Controlled(%s)" % show(g[1])
     if k == "R":
-        return "%s(%r)" % (g[1], g[3])
+        return "%s(%s)" % (g[1], numtypes.show(g[3]))      # plain repr for builtin numbers
     if k == "K":
         return "Ket(%s)" % ", ".join(str(int(b)) for b in g[1])
     if k == "B":
         return "Bra(%s)" % ", ".join(str(int(b)) for b in g[1])
     if k == "Q":
         return "QuantumGate(%r, %d, CUSTOM[%r])" % (g[1], CUSTOM_NQ[g[1]], g[1])
-    return "scalar(%r)" % (g[2],)
+    return "scalar(%s)" % numtypes.show(g[2])
 
 
 def kinds(g):
